@@ -113,7 +113,8 @@ class Env:
             for name, dims, aux in SHAPES:
                 f.write("file %s %d %s %d %s\n" % (os.path.join(self.dir, name + ".fits"), len(dims), " ".join("%d %d" % d for d in dims), len(aux),
                                                    " ".join("%s %s" % kv for kv in aux)))
-        cm_run([self.harness, "gen", spec], check=True, timeout=300)
+        genv = dict(os.environ); genv["ASAN_OPTIONS"] = "detect_leaks=0"     # gen only produces the inputs; leaks are judged on the cases
+        cm_run([self.harness, "gen", spec], check=True, timeout=300, env=genv)
         names = []
         for si, (name, dims, aux) in enumerate(SHAPES):
             full = open(os.path.join(self.dir, name + ".fits"), "rb").read()
@@ -473,6 +474,20 @@ def analyse(env, cases, res, out, stats):
             sig, what = orc
             stats.setdefault("oracle_signatures", {}); stats["oracle_signatures"][sig] = stats["oracle_signatures"].get(sig, 0) + 1
             out.violation(sig, what, payload_of(env, cid, ops, fault, {"oracle": what, "model_agrees": diff is None}))
+        if env.cfgbits == "11111111" and mops:
+            # the theorems NOT yet proved (C20_invariant / C20_balanced) are at least tested on the model for this very case
+            stats["model_invariant_cases"] = stats.get("model_invariant_cases", 0) + 1
+            bad = None
+            for k, mo in enumerate(mops):
+                if "end" in mo:
+                    alive = mops[k - 1]["d"] if k else {}
+                    if not alive and mo["end"].get("balanced") != "true": bad = "trace not balanced after all objects were destroyed"
+                elif mo["out"].startswith("UB"): bad = "model reaches undefined behaviour at op %d" % k
+                elif mo["h"]["errs"] or mo["h"]["lost"]: bad = "model records allocator errors / lost blocks at op %d" % k
+                if bad: break
+            if bad and not orc:
+                out.violation("C20:model-invariant", "ObjModel (fixed configuration) violates its invariant on this history: " + bad,
+                              payload_of(env, cid, ops, fault, {"broken": "C20_invariant/C20_balanced (tested, not proved)", "detail": bad}))
         if diff:
             ndiff += 1
             stats.setdefault("diffs", []).append((cid, diff))
@@ -519,7 +534,7 @@ def run(info, out):
         nd, no = analyse(env, cases, res, out, stats)
         print("replay: oracle anomalies %d, model/impl disagreements %d %s" % (no, nd, stats.get("diffs", "")))
         return {"evaluations": 1, "distinct_nontrivial": 2, "rule": "replay of " + info["replay"], "samples": [p["harness_case"][:400]]}
-    nseq = 120 if tier == "quick" else 2500
+    nseq = 300 if tier == "quick" else 3000
     rng = Rng(seed)
     # 1. corpus + fault-free histories
     base = corpus_cases(env)
@@ -570,4 +585,5 @@ def run(info, out):
                                    "fault_free_histories": len(base), "single_fault_cases": len(faulted), "inputs": len(env.inputs)},
             "model_vs_impl_disagreeing_cases": nd0 + nd1, "oracle_anomalies": no0 + no1, "oracle_signatures": stats.get("oracle_signatures", {}),
             "tree_cfg_bits(aux,clear,conv,fit,eq,perm,moveasg,auxsize)": env.cfgbits, "first_disagreements": [str(d) for d in stats.get("diffs", [])[:5]],
-            "search_volume_after_break": searched}
+            "search_volume_after_break": searched, "model_invariant_tested_cases": stats.get("model_invariant_cases", 0),
+            "inputs_not_usable": env.unusable[:20]}
